@@ -1,7 +1,7 @@
 (* C18 -- Recorded times are consistent with execution.
    Only pinned statements, closed by [exact lemma], with Print Assumptions. *)
 From Coq Require Import List NArith Bool.
-From FT Require Import Model.Base Model.Records Proofs.RecordsProofs.
+From FT Require Import Model.Base Model.Local Model.LocalProg Model.Records Proofs.RecordsProofs Proofs.TimeProofs.
 Import ListNotations.
 Open Scope N_scope.
 
@@ -30,6 +30,67 @@ Theorem C18_monotone_conversion_exact :
     (forall x y, x <= y -> conv x <= conv y) -> b <= e -> conv b + (conv e - conv b) = conv e.
 Proof. exact conv_monotone_dur. Qed.
 
+(* the instants of a local-span set nest.  [nested par lo hi l] (Proofs/TimeProofs.v, an
+   inductive predicate with four constructors): the entries of the set, in queue order, are
+   the pre-order listing of a forest whose roots have parent id [par]; an event lies after
+   everything before it; a span's children and events carry the span's id as parent and lie
+   strictly between its begin and its end; whatever follows a span at its own level begins
+   after the span's end.  For EVERY well-nested program (any depth, refused openings, ids of
+   any kind), every stack and every clock value: the entries a program adds to the line it
+   runs on form such a forest within the program's own time window, and the rest of the
+   line, and every line below, is untouched. *)
+Theorem C18_local_set_is_nested_in_time :
+  forall dbg p st e st' e',
+    exec dbg p st e = Ok (st', e') ->
+    e_clock e <= e_clock e' /\ tx (e_clock e) (e_clock e') st st'.
+Proof. exact exec_timed. Qed.
+
+(* what a local-parent scope / LocalCollector collects is such a forest, its roots with
+   parent id 0 (= to be attached under the scope's span), inside the scope's window *)
+Theorem C18_collected_set_is_nested :
+  forall dbg body st e st2 e2 tk,
+    (st_cap st <=? lenN (st_lines st)) = false ->
+    exec dbg body (mkStack (l_new (st_qcap st) (st_next_epoch st) tk :: st_lines st) (st_cap st)
+                           ((st_next_epoch st + 1) mod two64) (st_qcap st)) e = Ok (st2, e2) ->
+    exists l2, st_lines st2 = l2 :: st_lines st /\
+      l_collect l2 (st_next_epoch st) = Some (q_spans (l_q l2), tk) /\
+      nested 0 (e_clock e) (e_clock e2) (q_spans (l_q l2)).
+Proof. exact scope_set_nested. Qed.
+
+(* the clauses of the property read off the forest: begin < end for every span, every entry
+   inside the window; entries inside a span strictly inside its interval; later siblings
+   after its end *)
+Theorem C18_forest_entries_in_window :
+  forall par lo hi l, nested par lo hi l -> Forall (in_window lo hi) l.
+Proof. exact nested_window. Qed.
+
+Theorem C18_span_contains_children_and_events :
+  forall par hi sp inner hin rest,
+    r_kind sp = KSpan -> nested (r_id sp) (r_begin sp) hin inner -> hin < r_end sp ->
+    nested par (r_end sp) hi rest ->
+    Forall (in_window (r_begin sp) (r_end sp - 1)) inner /\ Forall (in_window (r_end sp) hi) rest.
+Proof. exact span_contains_inner. Qed.
+
+(* a concrete program: span a { event; span b { } ; span c { event } } under a scope *)
+Example C18_nested_example :
+  let st := mkStack [] 8 0 16 in
+  match exec true (PScope None PSkip) st (mkEnv 7 0 100) with Ok _ => True | Panic _ => False end /\
+  match s_register st None with
+  | (Some _, st1) =>
+      match exec true (PSpan 1 None (PSeq (PEvent 2 None) (PSeq (PSpan 3 None PSkip) (PSpan 4 None (PEvent 5 None))))) st1 (mkEnv 7 0 100) with
+      | Ok (st2, e2) =>
+          map (fun r => (r_name r, r_begin r, r_end r)) (match st_lines st2 with l :: _ => q_spans (l_q l) | [] => [] end)
+          = [(1, 101, 108); (2, 102, 0); (3, 103, 104); (4, 105, 107); (5, 106, 0)]
+      | Panic _ => False
+      end
+  | _ => False
+  end.
+Proof. vm_compute. split; [exact I | reflexivity]. Qed.
+
 Print Assumptions C18_duration_formula.
 Print Assumptions C18_span_duration.
 Print Assumptions C18_monotone_conversion_exact.
+Print Assumptions C18_local_set_is_nested_in_time.
+Print Assumptions C18_collected_set_is_nested.
+Print Assumptions C18_forest_entries_in_window.
+Print Assumptions C18_span_contains_children_and_events.
